@@ -119,7 +119,7 @@ func (p *MultilineAction) Do(event *pipeline.Event) pipeline.ActionResult {
 	predictedLen := p.eventSize + predictionLookahead
 	shouldSplit := predictedLen > p.config.SplitEventSize
 	logFragmentLen := len(logFragment)
-	isEnd := logFragmentLen >= 3 && logFragment[logFragmentLen-3:logFragmentLen-1] == newLine
+	isEnd := endsWithNewLine(logFragment)
 	if !isEnd && !shouldSplit {
 		sizeAfterAppend := len(p.eventBuf) + len(logFragment)
 		// check buffer size before append
@@ -254,4 +254,18 @@ func (p *MultilineAction) resetLogBuf() {
 	p.eventBuf = p.eventBuf[:1]
 	p.eventSize = 0
 	p.cutOffEvent = false
+}
+
+// endsWithNewLine reports whether the escaped (and quoted) string ends with an escaped line feed:
+// the letter n preceded by an odd number of backslashes. `C:\\n"` ends with an escaped backslash and the letter n.
+func endsWithNewLine(s string) bool {
+	l := len(s)
+	if l < 3 || s[l-2] != 'n' {
+		return false
+	}
+	n := 0
+	for i := l - 3; i >= 0 && s[i] == '\\'; i-- {
+		n++
+	}
+	return n%2 == 1
 }
